@@ -848,6 +848,9 @@ def evaluate(case):  # pylint: disable=too-many-locals,too-many-branches,too-man
                     'model': _short(model), 'first': composed.hex()[:400],
                     'second': None if again is None else again.hex()[:400],
                     'error': None if error is None else repr(error)[:300]}))
+    # -- compose direction, object reached by an in-place edit ---------------------------------------------------
+    if not findings and not hints(model):
+        findings.extend(_edited_compose(model, locus))
     if parsed is not None:
         composed, error = _call(lambda: bytes(parsed.compose()))
         if (error is not None or composed not in expected) and not any(f.key.startswith('compose-differs') for f in findings):
@@ -856,6 +859,109 @@ def evaluate(case):  # pylint: disable=too-many-locals,too-many-branches,too-man
                 'composed': None if composed is None else composed.hex()[:400],
                 'error': None if error is None else repr(error)[:300]}))
     return findings, {'wire': wire, 'classes': classes}
+
+
+def _grow(hexed):
+    if isinstance(hexed, dict):        # compact form {'fill': byte, 'len': n}
+        return dict(hexed, len=hexed['len'] + 2)
+    return hexed + 'a55a'
+
+
+def _tail(grown):
+    return list(_fromhex(grown)[-2:])
+
+
+def _grow_attribute(owner, field, grown):
+    """owner.field holds a byte string or an opaque vector: make it the grown value the way a caller would."""
+    value = getattr(owner, field)
+    if isinstance(value, (bytes, bytearray)):
+        setattr(owner, field, bytearray(_fromhex(grown)))
+    else:
+        value.extend(_tail(grown))
+
+
+def edit_pair(model, obj, rng):
+    """One size-changing change made twice: to a copy of the model, and *in place* to an item that already sits
+    inside a vector of the library object built from the model (the way a caller edits a parsed message).
+    -> (edited model, description) or None when the model has no such item."""
+    import copy  # pylint: disable=import-outside-toplevel
+    edited = copy.deepcopy(model)
+    kind = model['kind']
+
+    def key_share(ext_model, ext_obj):
+        index = rng.randrange(len(ext_model['shares']))
+        ext_model['shares'][index]['key_exchange'] = _grow(ext_model['shares'][index]['key_exchange'])
+        entry = ext_obj.key_share_entries[index]
+        field = 'data' if type(entry).__name__ == 'TlsKeyShareEntryInvalidType' else 'key_exchange'
+        _grow_attribute(entry, field, ext_model['shares'][index]['key_exchange'])
+        return 'key_share_entries[%d].%s grown by 2' % (index, field)
+
+    def responder(ext_model, ext_obj):
+        index = rng.randrange(len(ext_model['responder_ids']))
+        ext_model['responder_ids'][index] = _grow(ext_model['responder_ids'][index])
+        ext_obj.responder_id_list[index].extend(_tail(ext_model['responder_ids'][index]))
+        return 'responder_id_list[%d] extended by 2' % index
+
+    def extension(ext_model, ext_obj, side):
+        if ext_model['ext'] in ('key_share', 'key_share_reserved') and side == 'client' and ext_model.get('shares'):
+            return key_share(ext_model, ext_obj)
+        if ext_model['ext'] == 'status_request' and side == 'client' and ext_model.get('responder_ids'):
+            return responder(ext_model, ext_obj)
+        return None
+
+    if kind == 'certificate' and model['certificates']:
+        index = rng.randrange(len(model['certificates']))
+        edited['certificates'][index] = _grow(model['certificates'][index])
+        _grow_attribute(obj.certificate_chain[index], 'certificate', edited['certificates'][index])
+        return edited, 'certificate_chain[%d].certificate grown by 2' % index
+    if kind == 'certificate_request' and model['certificate_authorities']:
+        index = rng.randrange(len(model['certificate_authorities']))
+        edited['certificate_authorities'][index] = _grow(model['certificate_authorities'][index])
+        obj.certificate_authorities[index].extend(_tail(edited['certificate_authorities'][index]))
+        return edited, 'certificate_authorities[%d] extended by 2' % index
+    if kind == 'extension':
+        done = extension(edited, obj, model['side'])
+        return (edited, done) if done else None
+    if kind in ('client_hello', 'server_hello') and model['extensions']:
+        side = 'client' if kind == 'client_hello' else 'server'
+        order = list(range(len(model['extensions'])))
+        rng.shuffle(order)
+        for index in order:
+            done = extension(edited['extensions'][index], obj.extensions[index], side)
+            if done:
+                return edited, 'extensions[%d].%s' % (index, done)
+    return None
+
+
+def _edited_compose(model, locus):
+    rng = _random.Random(R.encode(model))
+    obj, error = _call(lambda: build(model))
+    if error is not None:
+        return []
+    pair, error = _call(lambda: edit_pair(model, obj, rng))
+    if error is not None:
+        raise HarnessError('edit_pair failed on %r: %r' % (_short(model), error))
+    if pair is None:
+        return []
+    edited, description = pair
+    _edited_compose.count += 1
+    try:
+        target = compose_model(edited)
+        expected = [R.encode(target)]
+    except R.RefError:
+        return []         # the edit left the specification's bounds (a vector ceiling): no prescribed encoding
+    if edited['kind'] in ('client_hello', 'server_hello') and target['extensions'] is None:
+        expected.append(R.encode(dict(target, extensions=[])))
+    composed, error = _call(lambda: bytes(obj.compose()))
+    if error is not None or composed not in expected:
+        return [Finding('edited-compose-differs/%s' % locus, {
+            'model': _short(model), 'edit': description, 'expected': expected[0].hex()[:400],
+            'composed': None if composed is None else composed.hex()[:400],
+            'error': None if error is None else repr(error)[:300]})]
+    return []
+
+
+_edited_compose.count = 0
 
 
 def check_case(case):
@@ -903,8 +1009,11 @@ def render(case):
 
 
 def case_fn(case, stats, sample_label=None):
+    before = _edited_compose.count
     findings, info = evaluate(case)
     stats.evaluated()
+    if _edited_compose.count != before:
+        stats.label('edited-in-place-then-composed')
     label = case['kind'] if case['kind'] != 'extension' else 'extension:' + case['side']
     stats.label(label)
     for name in info['classes']:
